@@ -54,9 +54,14 @@ def manifest():
             evidence_file='/verif/evidence/%s.json' % pid,
             replay_cmd_template='./check %s --replay {path}' % pid,
             engine='vt',
-            level_claimed=dict(category='proof', text=c.get('level_text', c.get('claim', '')), design_ref=c.get('design_ref', 'DESIGN.md section 6')),
-            level_note=c.get('level_note', ''),
-            technique=c.get('technique', 'contract-based deductive verification (Verus) of functions extracted mechanically from /repo on every run'),
+            level_claimed=dict(category='proof',
+                               text='Unbounded deductive proof (all inputs, all iterations) of contracts woven onto the functions extracted from /repo on every run; callers are checked against callee contracts. Proved: ' + c.get('claim', ''),
+                               design_ref=c.get('design_ref', 'DESIGN.md section 6 (%s)' % pid)),
+            level_note='Assumed (trusted base, also scanned mechanically into the evidence): ' + '; '.join(c.get('assumptions', []))
+                       + ((' | Domain restrictions: ' + '; '.join(c['domain'])) if c.get('domain') else '')
+                       + ((' | Not covered: ' + '; '.join(c['not_covered'])) if c.get('not_covered') else ''),
+            technique=('contract-based deductive verification: Verus (requires/ensures/invariant/decreases woven onto mechanically extracted real functions)'
+                       + (' + Kani function contract / loop-free float lemmas (CBMC)' if c.get('kani') else '')),
         ))
     na = [dict(property_id=k, reason=v) for k, v in sorted(NOT_APPLICABLE.items()) if k not in PROPS]
     import subprocess
